@@ -427,6 +427,168 @@ theorem nw_eval_keys (hcc : covarCols s ≠ []) :
 
 end Nw
 
+/-! ## the Narwhals pipeline without grouping (power analysis: one row for the whole table) -/
+
+section NwUngrouped
+variable (s : ColSpec) (T : List (Row κ α))
+
+def nwDemU : List (Name × Expr) :=
+  (covarCols s).map (fun c => (Name.demean c, Expr.sub (ucol c) (.mean (ucol c))))
+
+theorem nwQueryU_eq (h : covarCols s ≠ []) :
+    nwQuery false s = [Stage.withColumns (nwDemU s), Stage.withColumns (nwProd s),
+      Stage.aggregate false (nwAgg s), Stage.withColumns (nwPost s)] := by
+  unfold nwQuery demeanNwStages nwDemU nwProd nwAgg nwPost
+  have : (covarCols s).isEmpty = false := by
+    cases hc : covarCols s with
+    | nil => exact absurd hc h
+    | cons a l => rfl
+  simp [this]
+
+theorem demU_val (c : String) (hc : c ∈ covarCols s) (r : Row κ α) :
+    (wcRow (nwDemU s) T r).val (Name.demean c) = r.val (.user c) - smean T (fun r' => r'.val (.user c)) := by
+  have hl : lookupDef (nwDemU s) (Name.demean c) = some (Expr.sub (ucol c) (.mean (ucol c))) :=
+    lookupDef_map (covarCols s) Name.demean (fun c => Expr.sub (ucol c) (.mean (ucol c)))
+      (fun a b h => by injection h) c hc
+  rw [wcRow_val_some _ _ _ _ _ hl]
+  simp [evalRow, ucol]
+
+theorem user_val_demU (c : String) (r : Row κ α) : (wcRow (nwDemU s) T r).val (Name.user c) = r.val (.user c) := by
+  have h1 : lookupDef (nwDemU s) (Name.user c) = none := lookupDef_map_none _ _ _ _ (fun c' => by simp)
+  exact wcRow_val_none _ _ _ _ h1
+
+/-- the rows after demeaning and the products -/
+def nwU2 : List (Row κ α) :=
+  T.map (fun r => wcRow (nwProd s) (T.map (wcRow (nwDemU s) T)) (wcRow (nwDemU s) T r))
+
+/-- **Narwhals pipeline, ungrouped = the sample statistics of the whole table**: the result is exactly one
+row, holding `n`, the requested means, unbiased variances and covariances of all rows (the aggregates that
+power analysis works from). -/
+theorem nwU_eval_eq_stats (hcc : covarCols s ≠ []) (hn : 2 ≤ T.length) :
+    ∃ r, eval (nwQuery false s) T = [r] ∧
+      r.val Name.count = (T.length : α) ∧
+      (∀ c ∈ s.mean_cols, r.val (Name.mean c) = smean T (fun r => r.val (.user c))) ∧
+      (∀ c ∈ s.var_cols, r.val (Name.var c) = svar T (fun r => r.val (.user c))) ∧
+      (∀ p ∈ s.cov_cols, r.val (Name.cov p.1 p.2)
+        = scov T (fun r => r.val (.user p.1)) (fun r => r.val (.user p.2))) := by
+  rw [nwQueryU_eq s hcc]
+  simp only [eval, List.foldl_cons, List.foldl_nil, evalStage, withColumns_eq, aggregate, Bool.false_eq_true,
+    if_false, List.map_cons, List.map_nil, List.map_map]
+  have hG2 : List.map (wcRow (nwProd s) (T.map (wcRow (nwDemU s) T)) ∘ wcRow (nwDemU s) T) T = nwU2 s T := rfl
+  rw [hG2]
+  have hlen : (nwU2 s T).length = T.length := by simp [nwU2]
+  obtain ⟨r0, hr0⟩ : ∃ r0, (nwU2 s T).head? = some r0 := by
+    cases h : nwU2 s T with
+    | nil => rw [h] at hlen; simp at hlen; omega
+    | cons a l => exact ⟨a, rfl⟩
+  have n0 : ((T.length : ℕ) : α) ≠ 0 := natCast_ne_zero_of_pos (by omega)
+  have n1 : ((T.length : ℕ) : α) - 1 ≠ 0 := natCast_sub_one_ne_zero hn
+  have smean_def : ∀ f : Row κ α → α, smean (nwU2 s T) f = S (nwU2 s T) f / (T.length : α) := by
+    intro f; rw [← hlen]; rfl
+  set r3 := aggRow (nwAgg s) (nwU2 s T) (default : κ) with hr3
+  have hcount : r3.val Name.count = (T.length : α) := by
+    simp only [hr3, aggRow, agg_lookup_count s hcc, hr0, evalRow, hlen]
+  refine ⟨wcRow (nwPost s) [r3] r3, rfl, ?_, ?_, ?_, ?_⟩
+  · rw [wcRow_val_none _ _ _ _ (post_lookup_none s _ (fun c => by simp) (fun a b => by simp)), hcount]
+  · intro c hc
+    rw [wcRow_val_none _ _ _ _ (post_lookup_none s _ (fun c => by simp) (fun a b => by simp))]
+    simp only [hr3, aggRow, agg_lookup_mean s c hc, hr0, evalRow, ucol]
+    rw [smean_def]
+    unfold smean nwU2
+    rw [S_map]
+    congr 1
+    apply S_congr
+    intro r _
+    rw [user_val_prod, user_val_demU]
+  · intro c hc
+    have hcv := mem_var_covar s c hc
+    rw [wcRow_val_some _ _ _ _ _ (post_lookup_var s c hc)]
+    simp only [evalRow]
+    have hvar : r3.val (Name.var c)
+        = S T (fun r => (r.val (.user c) - smean T (fun r' => r'.val (.user c)))
+            * (r.val (.user c) - smean T (fun r' => r'.val (.user c)))) / (T.length : α) := by
+      simp only [hr3, aggRow, agg_lookup_var s c hc, hr0, evalRow]
+      rw [smean_def]
+      congr 1
+      unfold nwU2
+      rw [S_map]
+      apply S_congr
+      intro r _
+      rw [prod_val_var s _ c hc, demU_val s T c hcv]
+    rw [hcount, hvar]
+    simp only [Int.cast_one]
+    rw [rescale _ _ n0 n1]
+    rfl
+  · intro p hp
+    obtain ⟨hc1, hc2⟩ := mem_cov_covar s p hp
+    rw [wcRow_val_some _ _ _ _ _ (post_lookup_cov s p hp)]
+    simp only [evalRow]
+    have hcov : r3.val (Name.cov p.1 p.2)
+        = S T (fun r => (r.val (.user p.1) - smean T (fun r' => r'.val (.user p.1)))
+            * (r.val (.user p.2) - smean T (fun r' => r'.val (.user p.2)))) / (T.length : α) := by
+      simp only [hr3, aggRow, agg_lookup_cov s p hp, hr0, evalRow]
+      rw [smean_def]
+      congr 1
+      unfold nwU2
+      rw [S_map]
+      apply S_congr
+      intro r _
+      rw [prod_val_cov s _ p hp, demU_val s T p.1 hc1, demU_val s T p.2 hc2]
+    rw [hcount, hcov]
+    simp only [Int.cast_one]
+    rw [rescale _ _ n0 n1]
+    rfl
+
+end NwUngrouped
+
+/-! ## requests without variances / covariances: a single aggregate stage -/
+
+section MeansOnly
+variable (s : ColSpec) (T : List (Row κ α)) (v : κ)
+
+def moAgg : List (Name × Expr) :=
+  (if s.has_count then [(Name.count, Expr.len)] else [])
+    ++ s.mean_cols.map (fun c => (Name.mean c, Expr.mean (ucol c)))
+    ++ s.var_cols.map (fun c => (Name.var c, Expr.mean (.col (.var c))))
+    ++ s.cov_cols.map (fun p => (Name.cov p.1 p.2, Expr.mean (.col (.cov p.1 p.2))))
+
+theorem nwQuery_meansOnly (g : Bool) (h : covarCols s = []) : nwQuery g s = [Stage.aggregate g (moAgg s)] := by
+  unfold nwQuery moAgg
+  simp [h]
+
+/-- **means and counts only** (e.g. `SampleRatio`, or a metric that declares only means): the grouped
+Narwhals pipeline is one `group_by().agg()` returning the count and the sample means of the variant's rows -/
+theorem nw_meansOnly_eq_stats (h : covarCols s = []) (hG : 1 ≤ (T.filter (fun r => r.key = v)).length) :
+    ∃ r ∈ eval (nwQuery true s) T, r.key = v ∧
+      (s.has_count = true → r.val Name.count = ((T.filter (fun r => r.key = v)).length : α)) ∧
+      (∀ c ∈ s.mean_cols, r.val (Name.mean c) = smean (T.filter (fun r => r.key = v)) (fun r => r.val (.user c))) := by
+  rw [nwQuery_meansOnly s true h]
+  simp only [eval, List.foldl_cons, List.foldl_nil, evalStage]
+  have hv : v ∈ (T.map (·.key)).dedup := by
+    rw [List.mem_dedup]
+    obtain ⟨r, hr⟩ := List.exists_mem_of_length_pos (by omega : 0 < (T.filter (fun r => r.key = v)).length)
+    exact List.mem_map.mpr ⟨r, (List.mem_filter.mp hr).1, by simpa using (List.mem_filter.mp hr).2⟩
+  obtain ⟨r0, hr0⟩ : ∃ r0, (T.filter (fun r => r.key = v)).head? = some r0 := by
+    cases h' : T.filter (fun r => r.key = v) with
+    | nil => rw [h'] at hG; simp at hG
+    | cons a l => exact ⟨a, rfl⟩
+  refine ⟨aggRow (moAgg s) (T.filter (fun r => r.key = v)) v, ?_, rfl, ?_, ?_⟩
+  · simp only [aggregate, if_true]; exact List.mem_map.mpr ⟨v, hv, rfl⟩
+  · intro hc
+    have hl : lookupDef (moAgg s) Name.count = some Expr.len := by simp [moAgg, hc, lookupDef]
+    simp only [aggRow, hl, hr0, evalRow]
+  · intro c hc
+    have hl : lookupDef (moAgg s) (Name.mean c) = some (Expr.mean (ucol c)) := by
+      unfold moAgg
+      have h1 : lookupDef (if s.has_count then [(Name.count, Expr.len)] else []) (Name.mean c) = none := by
+        split_ifs <;> simp [lookupDef]
+      rw [lookupDef_append, lookupDef_append, lookupDef_append, h1,
+        lookupDef_map _ Name.mean _ (fun a b h => by injection h) c hc]
+      rfl
+    simp only [aggRow, hl, hr0, evalRow, ucol]
+
+end MeansOnly
+
 /-! ## the Ibis SQL-demeaning fallback -/
 
 section Fallback
